@@ -132,4 +132,9 @@ Section Build.
         end
     | _, _ => false
     end.
+
+  (* forests given as lists of (label, family), as exported by the harness *)
+  Definition in_forest (fams : list (nlabel * family)) (lbl : nlabel) (f : family) : Prop := In (lbl, f) fams.
+  Definition forest_okb (fams : list (nlabel * family)) : bool :=
+    forallb (fun lf => fam_okb (fst lf) (snd lf)) fams.
 End Build.
